@@ -1,5 +1,5 @@
 CONSTANTS MaxK = 4
-          NP = 9
+          NP = 10
 INIT Init
 NEXT Next
 CHECK_DEADLOCK FALSE
